@@ -16,12 +16,14 @@ open XmppModel XmppModel.Xml XmppModel.Encoder
 /-! ### Tie to the source: lock discipline of every function that touches the output encoder -/
 
 /-- every function of the package that mentions `….out.e`, with how it is protected:
-`locked` = first statement `s.out.Lock()`, second `defer s.out.Unlock()`; `holder` = a method
+`locked` = first statement `s.out.Lock()`, second `defer s.out.Unlock()`; `probe` = only
+inspects the encoder's state through a type assertion (its callers are locked, see
+`C05_gen_all_locked`); `holder` = a method
 of `lockWriteCloser`, which only `TokenWriter` creates; `setup` = `negotiateSession` / `writeStreamFeatures`
 (stream negotiation: no other goroutine has the session yet) -/
 def expectedFns : List (String × String) :=
   [("Encode", "locked"), ("EncodeElement", "locked"), ("lockWriteCloser.EncodeToken", "holder"),
-   ("lockWriteCloser.Flush", "holder"), ("negotiateSession", "setup"), ("send", "locked"),
+   ("lockWriteCloser.Flush", "holder"), ("negotiateSession", "setup"), ("outputBroken", "probe"), ("send", "locked"),
    ("sendError", "locked"), ("writeStreamFeatures", "setup")]
 
 theorem C05_gen_lock_discipline : Generated.C05.transmitFns = some expectedFns := by decide
@@ -33,8 +35,25 @@ theorem C05_gen_tokenwriter_holds_lock :
 
 /-- no function writes to the encoder without the lock -/
 theorem C05_gen_all_locked :
-    ∃ t, Generated.C05.transmitFns = some t ∧ ∀ p ∈ t, p.2 = "locked" ∨ p.2 = "holder" ∨ p.2 = "setup" := by
-  refine ⟨_, C05_gen_lock_discipline, by decide⟩
+    ∃ t c, Generated.C05.transmitFns = some t ∧ Generated.C05.probeCallers = some c ∧
+      (∀ p ∈ t, p.2 = "locked" ∨ p.2 = "holder" ∨ p.2 = "setup" ∨ p.2 = "probe") ∧
+      (∀ p ∈ c, p.2 = "locked" ∨ p.2 = "holder") := by
+  refine ⟨_, _, C05_gen_lock_discipline, rfl, by decide, by decide⟩
+
+/-- the encoder's state can only change in `EncodeToken` (a `Flush` of its own, or any other
+method, could move the depth counter behind the model's back: `C05_flush_transparent` rests
+on this) -/
+theorem C05_gen_encoder_methods : Generated.C05.stanzaEncoderMethods = some ["EncodeToken"] := by decide
+
+/-- every one-shot transmit entry point refuses to write when the previous write was abandoned
+inside an element (hypothesis `guard = true` of the fault theorems) -/
+theorem C05_gen_broken_guard :
+    Generated.C05.brokenGuard = some [("Encode", true), ("EncodeElement", true), ("send", true)] := by decide
+
+/-- `internal/marshal` keeps no state between calls: no package-level variable (a pooled or
+cached buffer shared between calls and sessions is how one call's content ends up in
+another's element) -/
+theorem C05_gen_marshal_stateless : Generated.C05.marshalGlobals = some [] := by decide
 
 /-! ### The stanza encoder changes exactly what the property allows -/
 
@@ -272,6 +291,134 @@ theorem C05_unflushed_stays_buffered (ts : List Tok) : exec ⟨[], []⟩ (ts.map
     | nil => intro o; simp [exec]
     | cons t ts ih => intro o; simp [exec, ih]
   simpa using key ts ⟨[], []⟩
+
+/-! ### Flushing in the middle of an element changes nothing -/
+
+theorem exec_flush_end (ops : List Op) : ∀ o : Out, exec o (ops ++ [.flush]) = ⟨o.wire ++ o.buf ++ writes ops, []⟩ := by
+  induction ops with
+  | nil => intro o; simp [exec, writes]
+  | cons op ops ih =>
+    intro o
+    cases op with
+    | write t => simp [exec, writes, ih]
+    | flush => simp [exec, writes, ih]
+
+theorem twRun_spec (cfg : Cfg) (fresh : String) (ops : List TwOp) :
+    ∀ d, (twRun cfg fresh d ops).1 = (encode cfg fresh d (twToks ops)).1 ∧
+      writes (twRun cfg fresh d ops).2 = (encode cfg fresh d (twToks ops)).2 := by
+  induction ops with
+  | nil => intro d; simp [twRun, twToks, writes, encode_nil]
+  | cons op ops ih =>
+    intro d
+    cases op with
+    | tok t =>
+      have := ih (Encoder.encTok cfg fresh d t).1
+      simp [twRun, twToks, writes, encode_cons, this.1, this.2]
+    | flush =>
+      have := ih d
+      simp [twRun, twToks, writes, this.1, this.2]
+
+/-- **flush transparency**: a token writer may flush at any point, any number of times: the
+encoder ends at the same depth and, once the final flush has happened, the connection carries
+exactly what it carries without the intermediate flushes — in particular a child written right
+after a flush is still a child (no id, namespace or from is stamped on it) -/
+theorem C05_flush_transparent (cfg : Cfg) (fresh : String) (d : Int) (ops : List TwOp) (w : List Tok) :
+    (twRun cfg fresh d ops).1 = (encode cfg fresh d (twToks ops)).1 ∧
+    exec ⟨w, []⟩ ((twRun cfg fresh d ops).2 ++ [.flush]) = ⟨w ++ (encode cfg fresh d (twToks ops)).2, []⟩ := by
+  have h := twRun_spec cfg fresh ops d
+  refine ⟨h.1, ?_⟩
+  rw [exec_flush_end, h.2]; simp
+
+/-- the flush positions do not change which tokens are written -/
+theorem C05_withFlushes_toks (pos : List Nat) (ts : List Tok) : ∀ i, twToks (withFlushes pos i ts) = ts := by
+  induction ts with
+  | nil => intro i; simp only [withFlushes]; split <;> simp [twToks]
+  | cons t ts ih =>
+    intro i
+    simp only [withFlushes]
+    split <;> simp [twToks, ih]
+
+example : (twRun ⟨"jabber:client", ""⟩ "ID#" 0
+    (withFlushes [1, 2] 0 [.start ⟨"", "x"⟩ [], .start ⟨"", "message"⟩ [], .stop ⟨"", "message"⟩, .stop ⟨"", "x"⟩])).2
+    = [.write (.start ⟨"", "x"⟩ []), .flush, .write (.start ⟨"", "message"⟩ []), .flush,
+       .write (.stop ⟨"", "message"⟩), .write (.stop ⟨"", "x"⟩)] := by decide
+
+/-! ### A call that fails half way, and the next call -/
+
+/-- **what the unguarded code does**: if a call stops strictly inside its element (after the
+start token and before the end token: reader error, refused token, write error), the next
+call's complete element is encoded as *content* of the unfinished one: none of its tokens is
+completed (no id, namespace, from), the encoder stays inside an element, and what the two
+calls leave on the connection is not a sequence of complete elements -/
+theorem C05_fault_inside_unguarded (cfg : Cfg) (fresh : String) (n m n' m' : Name) (as as' : List Attr)
+    (body body' : List Tok) (hb : balanced body = true) (hb' : balanced body' = true)
+    (k : Nat) (hk : 0 < k) (hk2 : k < (Tok.start n as :: body ++ [Tok.stop m]).length) :
+    let ts := Tok.start n as :: body ++ [Tok.stop m]
+    let us := Tok.start n' as' :: body' ++ [Tok.stop m']
+    ∃ d : Nat, 1 ≤ d ∧
+      (faultThenNext false cfg fresh ts k us).2 = .wrote (us.map stripTok) ∧
+      (encode cfg fresh 0 (ts.take k ++ us)).1 = d ∧
+      balanced ((faultThenNext false cfg fresh ts k us).1 ++ us.map stripTok) = false := by
+  intro ts us
+  have hbd : depthAfter 0 body = some 0 := by simpa [balanced] using hb
+  have hbd' : depthAfter 0 body' = some 0 := by simpa [balanced] using hb'
+  obtain ⟨r, hr⟩ := prefix_open n m as body hbd k hk hk2
+  have hus : depthAfter 0 us = some 0 := element_balanced n' m' as' body' hbd'
+  have hfst : (encode cfg fresh 0 (ts.take k)).1 = ((r + 1 : Nat) : Int) := by
+    have := encode_fst cfg fresh (ts.take k) 0 0 (r + 1) hr
+    simpa using this
+  have hin0 := encode_inside cfg fresh ((r + 1 : Nat) : Int) (by omega) us 0 0 hus
+  have hin : encode cfg fresh ((r + 1 : Nat) : Int) us = (((r + 1 : Nat) : Int), us.map stripTok) := by
+    simpa using hin0
+  refine ⟨r + 1, by omega, ?_, ?_, ?_⟩
+  · simp only [faultThenNext, Bool.false_and, Bool.false_eq_true, if_false]
+    rw [hfst, hin]
+  · rw [encode_append, hfst, hin]
+  · simp only [faultThenNext, Bool.false_and, Bool.false_eq_true, if_false, balanced]
+    have h1 : depthAfter 0 (encode cfg fresh 0 (ts.take k)).2 = some (r + 1) := by
+      rw [depthAfter_encode]; exact hr
+    have h2 : depthAfter (r + 1) (us.map stripTok) = some (r + 1) := by
+      have e : us.map stripTok = (encode cfg fresh ((r + 1 : Nat) : Int) us).2 := by rw [hin]
+      rw [e, depthAfter_encode]
+      have := depthAfter_shift us 0 0 (r + 1) hus
+      simpa using this
+    rw [Encoder.depthAfter_append, h1]
+    simp [h2]
+
+/-- **the repaired code**: a session whose last transmit call stopped inside an element refuses
+the next one (nothing more is written) … -/
+theorem C05_fault_inside_guarded (cfg : Cfg) (fresh : String) (n m : Name) (as : List Attr)
+    (body us : List Tok) (hb : balanced body = true) (refusedTok : Bool)
+    (k : Nat) (hk : 0 < k) (hk2 : k < (Tok.start n as :: body ++ [Tok.stop m]).length) :
+    (faultThenNext true cfg fresh (Tok.start n as :: body ++ [Tok.stop m]) k us refusedTok).2 = .refused := by
+  have hbd : depthAfter 0 body = some 0 := by simpa [balanced] using hb
+  obtain ⟨r, hr⟩ := prefix_open n m as body hbd k hk hk2
+  have hfst : (encode cfg fresh 0 ((Tok.start n as :: body ++ [Tok.stop m]).take k)).1 = ((r + 1 : Nat) : Int) := by
+    have := encode_fst cfg fresh _ 0 0 (r + 1) hr
+    simpa using this
+  have hne : ¬ ((r : Int) + 1 = 0) := by omega
+  simp only [faultThenNext, hfst, Bool.true_and]
+  simp [hne]
+
+/-- … and likewise, wherever it happened, when the writer underneath refused a token -/
+theorem C05_fault_refused_token_guarded (cfg : Cfg) (fresh : String) (ts us : List Tok) (k : Nat) :
+    (faultThenNext true cfg fresh ts k us true).2 = .refused := by
+  simp [faultThenNext]
+
+/-- … while a call that failed before handing anything to the encoder, or after its whole
+element, leaves the session usable: the next call emits its whole element, completed as a top
+level element, with or without the guard -/
+theorem C05_fault_boundary (guard : Bool) (cfg : Cfg) (fresh : String) (n m : Name) (as : List Attr)
+    (body us : List Tok) (hb : balanced body = true)
+    (k : Nat) (hk : k = 0 ∨ (Tok.start n as :: body ++ [Tok.stop m]).length ≤ k) :
+    (faultThenNext guard cfg fresh (Tok.start n as :: body ++ [Tok.stop m]) k us).2 = .wrote (wireToks cfg fresh us) := by
+  rcases hk with rfl | hk
+  · simp [faultThenNext, encode_nil, wireToks]
+  · rw [faultThenNext, List.take_of_length_le hk]
+    have := C05_encoder_exact cfg fresh n m as body hb
+    have h2 : encode cfg fresh 0 (Tok.start n as :: (body ++ [Tok.stop m])) =
+        (0, encStart cfg fresh 1 n as :: List.map stripTok body ++ [encStop cfg 1 m]) := by simpa using this
+    simp [h2, wireToks]
 
 /-! ### Atomicity under every schedule -/
 
